@@ -75,6 +75,18 @@ def s_spec(pcp, env, opts, login, selfpath):
     return ("RUN", out)
 
 
+def active_misc(text):
+    """which of the conflicting test modules misc/A, misc/B is reported active by -L"""
+    mod, act = None, None
+    for line in text.split(b"\n"):
+        k, _, v = line.partition(b":")
+        if k.strip() == b"Module":
+            mod = v.strip()
+        elif k.strip() == b"Active" and mod in (b"misc/A", b"misc/B") and v.strip() == b"yes":
+            act = mod[-1:]
+    return act
+
+
 def parse_q(o):
     d = {}
     for line in o.split(b"\n"):
@@ -95,7 +107,7 @@ def gen_case(r):
             elif k == "PDSH_RCMD_TYPE":
                 env[k] = r.choice(RCMDS)
             elif k == "PDSH_MISC_MODULES":
-                env[k] = r.choice([b"a", b"a,b"])
+                env[k] = r.choice([b"A", b"B", b"B,A"])
             else:
                 env[k] = r.choice([b"/opt/pdcp", b"/x y/pdcp"])
     opts = []
@@ -110,7 +122,7 @@ def gen_case(r):
         elif l == "R":
             v = r.choice(RCMDS)
         elif l == "M":
-            v = r.choice([b"a", b"b"])
+            v = r.choice([b"A", b"B", b"B", b"A,B"])
         else:
             v = r.choice([b"/usr/bin/pdcp", b"rel/pdcp"])
         opts.append((l, v))
@@ -120,7 +132,9 @@ def gen_case(r):
 def run(ctx):
     ctx.gen_params()
     ctx.prove()
-    real = realeng.Real(ctx, null_exec=True)
+    tm = os.path.join(vlib.REPO, "tests", "test-modules")
+    # the suite's two conflicting misc modules A and B (same option): which one is active shows the module selection in effect
+    real = realeng.Real(ctx, null_exec=True, extra_mods=[(os.path.join(tm, "a.c"), "a"), (os.path.join(tm, "b.c"), "b")])
     model = ctx.build_runner("args", "args_model")
     quick = ctx.tier == "quick"
     r = ctx.rng("settings")
@@ -156,6 +170,9 @@ def run(ctx):
         else:
             obs = ("REFUSED", rc, er[-200:])
             dist["refused"] += 1
+        if obs[0] == "RUN" and not pcp:
+            rc2, o2, er2 = real.run(args[:-3] + ["-L"], prog=prog, env=e, timeout=15)
+            obs[1]["active_misc"] = active_misc(o2 + er2)
         observed.append(obs)
         envf = [hexs(env[k]) if k in env and env[k] != b"" else ("_" if k not in env else "-") for k in ENVN]
         mcases.append("set %d %s 256 %s %s %s %s %s" % (1 if pcp else 0, hexs(login), hexs(b"exec"), hexs(b"exec"), hexs(selfpath), " ".join(envf),
@@ -181,6 +198,12 @@ def run(ctx):
                 if o.get(k) != v:
                     problem = ("input", "setting %s is %r, precedence (command line > environment > default) gives %r" % (k, o.get(k), v))
                     break
+            if problem is None and "active_misc" in o:
+                # A and B conflict; the first module named by the selection in effect wins, A (priority/name order) when none is named
+                sel = s["misc"].split(b",")[0] if s["misc"] else b"A"
+                if o["active_misc"] != sel:
+                    problem = ("input", "module selection in effect is %r (active misc module %r), precedence (-M > PDSH_MISC_MODULES > default) gives %r"
+                               % (o["active_misc"], o["active_misc"], sel))
         # correspondence with the model
         mobs = "REFUSED" if obs[0] == "REFUSED" else ("RUN " + " ".join([obs[1].get("fanout", b"?").decode(), obs[1].get("ct", b"?").decode(), obs[1].get("ut", b"?").decode(),
                                                                            hexs(obs[1].get("ruser", b"")), hexs(obs[1].get("rcmd", b""))]) if obs[0] == "RUN" else "HANG")
